@@ -551,6 +551,172 @@ def big_snapshots(ctx):
     return fails
 
 
+# ---------------------------------------------------------------------------------------------------
+# snapshot isolation of B-tree zones under many small commits (copy-on-write of FULL nodes that are
+# still shared with older versions: splits, steals, merges), node map AND delegation index
+
+_SMALL = {}
+
+
+def small_zone_classes(t):
+    """dns.btreezone.Zone (t = 0: the default t = 127) or a subclass whose node map and whose delegation index
+    are B-trees with a small t, so that full nodes and multi-level trees occur after a handful of inserts"""
+    if t == 0:
+        return dns.btreezone.Zone, dns.btreezone.Delegations
+    if t not in _SMALL:
+        base = dns.btreezone.Delegations
+
+        class SmallDelegations(base):
+            def __init__(self, *, original=None, **kw):
+                if original is not None:
+                    super().__init__(original=original)
+                else:
+                    super().__init__(t=t)
+
+        def mf():
+            return dns.btree.BTreeDict(t=t)
+
+        class SmallZone(dns.btreezone.Zone):
+            map_factory = staticmethod(mf)
+
+        _SMALL[t] = (SmallZone, SmallDelegations)
+    return _SMALL[t]
+
+
+def version_snapshot(v, sample):
+    """everything a reader of version v can learn: every node (flags, rdatasets), the delegation index, and
+    what bounds() answers for a sample of names"""
+    nodes = tuple((k.to_text(), dump_node(n)) for k, n in v.nodes.items())
+    dels = tuple(k.to_text() for k in v.delegations)
+    bounds = []
+    for nm in sample:
+        try:
+            b = v.bounds(nm)
+            bounds.append((nm.to_text(), b.is_delegation, b.is_equal, b.left.to_text(),
+                           None if b.right is None else b.right.to_text(), b.closest_encloser.to_text()))
+        except Exception as e:  # noqa
+            bounds.append((nm.to_text(), "raised " + type(e).__name__))
+    # the indexes must also still be consistent with each other
+    cuts = tuple(k.to_text() for k, n in v.nodes.items() if n.is_delegation())
+    return (nodes, dels, tuple(bounds), cuts)
+
+
+def btree_isolation(t, seed, ncommits, window, mode="mixed"):
+    """grow / shrink a B-tree zone by single-operation commits; after EVERY commit every retained version must
+    still give exactly the snapshot it gave when it was committed.  Returns a failure dict or None."""
+    import random
+    rng = random.Random(seed)
+    zcls, dcls = small_zone_classes(t)
+    saved = dns.btreezone.Delegations
+    dns.btreezone.Delegations = dcls
+    try:
+        z = zcls("example.")
+        z.set_max_versions(window)
+        delegs, plain = [], []
+        counter = [0]
+        with z.writer() as txn:
+            txn.replace("@", rds("SOA", 300, "ns hostmaster 1 7200 900 1209600 300"))
+            txn.replace("@", rds("NS", 300, "ns"))
+            if mode == "ascending":
+                # the integrator's shape: a first transaction loads delegations in ascending order
+                for i in range(250 if t == 0 else 4 * t):
+                    nm = N("d%05d" % i)
+                    txn.replace(nm, rds("NS", 300, "ns1.d%05d" % i))
+                    delegs.append(nm)
+                counter[0] = len(delegs)
+        recorded = {}
+
+        def sample_names():
+            out = []
+            for nm in (delegs[-12:] + delegs[:: max(1, len(delegs) // 12)])[:24]:
+                out.append(nm)
+                out.append(N("www." + nm.to_text()))
+            out += plain[-4:]
+            return out
+
+        for c in range(ncommits):
+            with z.writer() as txn:
+                for _ in range(1 if rng.random() < 0.8 else rng.choice([2, 3])):
+                    r = rng.random()
+                    if mode == "ascending" or r < 0.55 or not delegs:
+                        i = counter[0]
+                        counter[0] += 1
+                        # ascending names fill the right-most leaf; random ones hit interior full nodes
+                        nm = N("d%05d" % i) if (mode == "ascending" or rng.random() < 0.5) else \
+                            N("d%05d" % rng.randrange(100000))
+                        if nm not in delegs:
+                            txn.replace(nm, rds("NS", 300, "ns1." + nm.to_text()))
+                            delegs.append(nm)
+                    elif r < 0.70:
+                        nm = N("p%04d" % rng.randrange(10000))
+                        txn.replace(nm, rds("A", 300, "10.5.0.1"))
+                        if nm not in plain:
+                            plain.append(nm)
+                    elif r < 0.80:
+                        d = rng.choice(delegs)
+                        txn.replace(N("g%d." % rng.randrange(3) + d.to_text()), rds("A", 300, "10.6.0.1"))
+                    elif r < 0.90:
+                        d = delegs.pop(rng.randrange(len(delegs)))
+                        if rng.random() < 0.5:
+                            txn.delete(d)
+                        else:
+                            txn.delete(d, "NS")
+                    elif plain:
+                        txn.delete(plain.pop(rng.randrange(len(plain))))
+                txn.update_serial()
+            sample = sample_names()
+            newest = z._versions[-1]
+            recorded[newest.id] = (sample, version_snapshot(newest, sample))
+            for v in z._versions:
+                if v.id not in recorded:
+                    continue
+                smp, snap = recorded[v.id]
+                now = version_snapshot(v, smp)
+                if now != snap:
+                    part = ["nodes", "delegation index", "bounds()", "delegation flags"][
+                        next(i for i in range(4) if now[i] != snap[i])]
+                    detail = None
+                    if part == "delegation index":
+                        detail = {"lost": sorted(set(snap[1]) - set(now[1]))[:5], "n_lost": len(set(snap[1]) - set(now[1]))}
+                    elif part == "bounds()":
+                        detail = [(a, b) for a, b in zip(snap[2], now[2]) if a != b][:2]
+                    return {"what": "a committed version changed after a later commit (" + part + ")",
+                            "version": v.id, "after_commit": c, "newest": newest.id, "t": t or 127,
+                            "delegations": len(delegs), "detail": detail}
+            for vid in [k for k in recorded if k < z._versions[0].id]:
+                del recorded[vid]
+        return None
+    finally:
+        dns.btreezone.Delegations = saved
+
+
+def btree_isolation_check(ctx):
+    fails = []
+    runs = []
+    if ctx.quick:
+        plan = [(3, 11, 110, 6, "mixed"), (4, 12, 90, 6, "mixed"), (3, 13, 45, 5, "ascending")]
+    else:
+        plan = [(3, 11, 400, 12, "mixed"), (4, 12, 400, 12, "mixed"), (5, 14, 400, 12, "mixed"),
+                (3, 13, 150, 8, "ascending"), (4, 15, 150, 8, "ascending"),
+                (0, 16, 140, 3, "ascending")]   # default t = 127: 250 delegations, then one per commit
+    for t, seed, n, window, mode in plan:
+        seed = seed + 100 * ctx.seed
+        f = btree_isolation(t, seed, n, window, mode)
+        runs.append(f"t={t or 127} {mode} {n} commits, last {window} versions compared after every commit")
+        if f is not None:
+            fails.append({"kind": "C11:snapshot-isolation:" + f["what"], "sig": "btree-isolation", **f,
+                          "zone": "dns.btreezone.Zone", "case": [103, t, seed, n, window, mode]})
+            break
+    ctx.notes["btree_isolation_runs"] = runs
+    return fails
+
+
+def replay_isolation(case):
+    _, t, seed, n, window, mode = case
+    mode = mode.decode("latin-1") if isinstance(mode, bytes) else mode
+    return btree_isolation(t, seed, n, window, mode)
+
+
 def check(ctx):
     fails = []
     evals = mut = 0
@@ -575,6 +741,7 @@ def check(ctx):
         mut += e.mutating
     try:
         fails += big_snapshots(ctx)
+        fails += btree_isolation_check(ctx)
     except Exception as ex:  # noqa
         import traceback
         fails.append({"kind": "C11:snapshot-isolation:crashed", "what": "large-zone snapshot check crashed",
